@@ -37,6 +37,7 @@ func nestedSpecs(r *Run, detach bool, oracles []string) []Spec {
 			Spec{Name: "nested-map-cross", Kind: "nested", T: 256, Keys: 2, Classes: []string{"t", "h", "M"}, Oracles: oracles, Extra: ex(1, 2, 3, 2, 2)},
 			Spec{Name: "nested-wrapped", Kind: "nested", T: 256, Keys: 2, Classes: []string{"t", "h", "s:A", "s:M"}, Oracles: oracles, Extra: ex(0, 2, 3, 2, 2), Depth: 0},
 			Spec{Name: "nested-depth3", Kind: "nested", T: 256, Keys: 1, Classes: []string{"h", "A", "M"}, Oracles: oracles, Extra: ex(0, 1, 2, 3, 3)},
+			Spec{Name: "nested-compact", Kind: "nested", T: 256, Keys: 1, Classes: []string{"Mc:t,t", "t"}, Oracles: oracles, Extra: ex2(0, 3, 2, 3, 2)},
 			Spec{Name: "nested-two-handles", Kind: "nested", T: 256, Keys: 2, Classes: []string{"t", "A", "M"}, Oracles: oracles, Extra: exTwo(0, 2, 3, 2, 2)},
 			Spec{Name: "nested-two-handles-map", Kind: "nested", T: 256, Keys: 2, Classes: []string{"t", "A", "M"}, Oracles: oracles, Extra: exTwo(1, 2, 3, 2, 2)},
 			Spec{Name: "nested-parent-split", Kind: "nested", T: 256, Keys: 2, Classes: []string{"limA", "s30", "A"}, Oracles: oracles, Extra: ex2(0, 4, 3, 2, 2)},
@@ -125,6 +126,7 @@ func runC11(r *Run) {
 			{Name: "detach-2kids", Kind: "nested", T: 256, Keys: 2, Classes: []string{"t", "A", "M"}, Oracles: or, Extra: ex(0, 2, 1, 3, 2)},
 			{Name: "detach-2kids-map", Kind: "nested", T: 256, Keys: 2, Classes: []string{"t", "A", "M"}, Oracles: or, Extra: ex(1, 2, 1, 3, 2)},
 			{Name: "detach-depth3", Kind: "nested", T: 256, Keys: 1, Classes: []string{"h", "A", "M"}, Oracles: or, Extra: ex(0, 1, 2, 3, 3)},
+			{Name: "detach-compact", Kind: "nested", T: 256, Keys: 1, Classes: []string{"Mc:t,t"}, Oracles: or, Extra: ex(0, 2, 2, 3, 2)},
 			{Name: "detach-nodedup-arr", Kind: "nested", T: 256, Keys: 2, Classes: []string{"t", "A"}, Oracles: []string{"sem", "struct", "inline", "reach", "reopen"}, Extra: exND(0), Depth: 5},
 			{Name: "detach-nodedup-map", Kind: "nested", T: 256, Keys: 2, Classes: []string{"t", "M"}, Oracles: []string{"sem", "struct", "inline", "reach", "reopen"}, Extra: exND(1), Depth: 5},
 		}
@@ -137,6 +139,7 @@ func runC11(r *Run) {
 			{Name: "detach-2kids-map", Kind: "nested", T: 256, Keys: 2, Classes: []string{"t", "A", "M"}, Oracles: or, Extra: ex(1, 2, 2, 3, 2)},
 			{Name: "detach-depth3", Kind: "nested", T: 256, Keys: 1, Classes: []string{"h", "A", "M"}, Oracles: or, Extra: ex(0, 1, 2, 3, 3)},
 			{Name: "detach-arr-T512", Kind: "nested", T: 512, Keys: 2, Classes: []string{"t", "h", "A"}, Oracles: or, Extra: ex(0, 2, 2, 2, 2)},
+			{Name: "detach-compact", Kind: "nested", T: 256, Keys: 1, Classes: []string{"Mc:t,t", "t"}, Oracles: or, Extra: ex(0, 3, 2, 4, 2)},
 			{Name: "detach-nodedup-arr", Kind: "nested", T: 256, Keys: 2, Classes: []string{"t", "A"}, Oracles: []string{"sem", "struct", "inline", "reach", "reopen"}, Extra: exND(0), Depth: 6},
 			{Name: "detach-nodedup-map", Kind: "nested", T: 256, Keys: 2, Classes: []string{"t", "M"}, Oracles: []string{"sem", "struct", "inline", "reach", "reopen"}, Extra: exND(1), Depth: 6},
 		}
